@@ -272,8 +272,9 @@ theorem compile_correct (env : Env) (henv : EnvOk env) (cond : Expr) (hwf : WF' 
    enumerations, `for..of`, arbitrary nesting (up to the 4 loop levels the compiler allows) — is covered by
    `compile_correct_partial` below.  The remaining clauses of WF are not restrictions of the fragment but the exact
    conditions under which libyara's code is correct: they exclude the situations of findings F14 (an integer equal to
-   the sentinel), F42 (undefined quantifier) and the INT64_MAX-ending range on which the iterator's `next++` overflows.
-   (F43 — loop bodies summed instead of counted — is repaired in exec.c; the model's OP_ITER_CONDITION normalises the
+   the sentinel) and F42 (undefined quantifier).
+   (F45 — a range ending at INT64_MAX wrapped around — is repaired in exec.c: the iterator is marked exhausted instead
+   of stepping past INT64_MAX, and the model's `iterAdvance` does the same.  F43 — loop bodies summed instead of counted — is repaired in exec.c; the model's OP_ITER_CONDITION normalises the
    body value like the code does, and the raw value a short-circuited `or` leaves on the stack is handled by `WordOK`.) -/
 
 /-- **compile_correct** (all constructs except floats and `P% of`): for every environment whose memory blocks lie in
@@ -344,5 +345,17 @@ example : let env : Env := ⟨[[(0, 2), (2, 2), (6, 2)]], [(0, [97, 98, 97, 98, 
     decide
   · simp [WF, SRefOk, tyOf, UNDEF, INT64_MIN, INT64_MAX, intRange, eval, ctxOfEnv]
   · simp [ruleVerdict, eval, Env.matchesOf, asBool, truthy, intRange, loopHolds, quantOf, quantHolds, countTrue]
+
+/-- non-vacuity (range ending at INT64_MAX, the situation of the repaired finding F45):
+    `for all i in (9223372036854775807..9223372036854775807) : (i > 0)` is true -/
+example : let env : Env := ⟨[], [], 0, [], []⟩
+    let cond := Expr.forRange .all (.int 0) (.int 9223372036854775807) (.int 9223372036854775807)
+      (.cmp .gt (.var 0) (.int 0))
+    EnvOk env ∧ WF env (ctxOfEnv env) {} cond ∧ ruleVerdict env cond = true := by
+  refine ⟨?_, ?_, ?_⟩
+  · intro b hb
+    simp at hb
+  · simp [WF, tyOf, UNDEF, INT64_MIN, INT64_MAX, intRange, eval, ctxOfEnv, ValOk]
+  · simp [ruleVerdict, eval, asBool, truthy, intRange, loopHolds, quantOf, quantHolds, countTrue, vCmp, cmpInt]
 
 end YaraModel.Cond
